@@ -31,13 +31,13 @@ RULE = (
     "Scenario = affected job with payload (nested files + document) + 1-2 bystanders (+ destination job where the "
     "operation collides) x operation in {init fresh/existing/force-over-damaged, re-key by setitem/assignment/"
     "update_statepoint to fresh/colliding/same id, move fresh/colliding, clone fresh/colliding, remove, clear, reset} x "
-    "threading support {on, off}. Enumerated: crash before each mutating step, torn prefixes per write, each step x 5 errnos, "
+    "threading support {on, off} x persistent state point cache {absent, written before the operation}. Enumerated: crash before each mutating step, torn prefixes per write, each step x 5 errnos, "
     "drawn double faults. Non-trivial: fault strictly inside the operation (not first/last step) on a job with >=2 payload "
     "files; distinct by (scenario, fault point)."
 )
 CLASSES = [
     "crash", "torn", "fault_EIO", "fault_ENOSPC", "fault_EACCES", "fault_EXDEV", "fault_EROFS", "double_fault",
-    "between_two_renames", "rollback_exercised", "collision_dest", "threads_off",
+    "between_two_renames", "rollback_exercised", "retry_after_handled_error", "retry_returned_normally", "collision_dest", "threads_off", "persistent_cache",
     "op_init_fresh", "op_init_existing", "op_init_force", "op_rekey_set", "op_rekey_assign", "op_update_statepoint",
     "op_move", "op_clone", "op_remove", "op_clear", "op_reset",
 ]
@@ -45,6 +45,9 @@ ASSUMPTIONS = [
     "process death = os._exit before a Python-level fs call; no power loss / fsync reordering",
     "remove / clear / reset are deletions: only 'nothing outside the affected job changed' is demanded of them",
     "an exception together with the complete success state is accepted (failure of a trailing metadata step)",
+    "after a handled single fault that left the pre-state on disk, the same call is repeated on the same handle without fault: "
+    "if it returns normally the operation must have been carried out (instance of 'no exception => complete success'); nothing "
+    "is demanded when it raises, or when the fault left a check()-detectable state",
     "for sampled double faults only H1-H4 and 'no exception => complete success' are asserted: the second fault may hit the roll-back itself",
 ]
 
@@ -68,6 +71,7 @@ def cases(draw):
         "bystanders": draw(st.integers(1, 2)),
         "dest": draw(st.sampled_from(["fresh", "fresh", "collide", "same"])),
         "threads": draw(st.sampled_from([True, True, False])),
+        "cache": draw(st.sampled_from([False, False, True])),
         "double": draw(st.lists(st.tuples(st.integers(0, 30), st.integers(1, 12), st.sampled_from(sorted(ERRNOS)), st.sampled_from(sorted(ERRNOS))), max_size=4)),
         "torn": draw(st.lists(st.integers(2, 30), max_size=2)),
     }
@@ -116,10 +120,14 @@ def build(ctx, case):
             d = p1.open_job(case["sp"]).init()
             fsutil.write_file(d.fn("dest.txt"), b"destination payload")
             info["dest"] = ("p1", d.id)
+    if case.get("cache"):
+        # a persistent state point cache written before the operation (it lists the affected job's old id)
+        p0.update_cache()
+        p1.update_cache()
     return info
 
 
-def make_actor(case, root):
+def make_actor(case, root, retry=False):
     import signac
 
     op = case["op"]
@@ -139,6 +147,22 @@ def make_actor(case, root):
         return p0, p1, job
 
     def act(state):
+        if not retry:
+            return act_once(state)
+        # the caller handles the I/O error and calls the same operation again on the same handle (no fault any more)
+        try:
+            act_once(state)
+            return {"first": None}
+        except Exception as e:
+            first = type(e).__name__
+        fsshim.S.faults = None
+        try:
+            act_once(state)
+        except Exception as e:
+            return {"first": first, "retry": type(e).__name__ + ": " + str(e)[:120]}
+        return {"first": first, "retry": None}
+
+    def act_once(state):
         p0, p1, job = state
         new = new_sp_of(case)
         if op in ("init_fresh", "init_existing"):
@@ -287,6 +311,8 @@ def run_case(case, ctx):
     template = info["root"]
     if info["dest"]:
         cl.add("collision_dest")
+    if case.get("cache"):
+        cl.add("persistent_cache")
     pre_snap = {pn: fsutil.snapshot(os.path.join(template, pn, "workspace")) for pn in ("p0", "p1")}
     ref_root = copy_tree(ctx, template)
     prep, act = make_actor(case, ref_root)
@@ -327,8 +353,50 @@ def run_case(case, ctx):
         if res.payload is None and not res.died:
             raise HarnessError(f"{where}: child ended with status {res.status} without result")
         judge(case, info, pre_snap, succ_snap, root, where, exc, kind == "fault", mms, double=where.startswith("double fault"))
+        back_to_pre = kind == "fault" and exc is not None and all(
+            fsutil.same(pre_snap[pn], fsutil.snapshot(os.path.join(root, pn, "workspace"))) for pn in ("p0", "p1"))
         shutil.rmtree(root, ignore_errors=True)
+        if back_to_pre and expected_exc is None and not where.startswith("double fault"):
+            retry_one(where, **kw)
         return exc
+
+    def retry_one(where, **kw):
+        """The error was handled and the same call is repeated on the same handle: a retry that returns
+        normally must have done the operation (no exception => complete success)."""
+        nonlocal evaluations
+        root = copy_tree(ctx, template)
+        prep, act = make_actor(case, root, retry=True)
+        res = fsshim.run_child(prep, act, root, **kw)
+        evaluations += 1
+        if res.payload is None or res.payload.get("exc") is not None or not isinstance(res.payload.get("ret"), dict):
+            raise HarnessError(f"retry after {where}: child ended with status {res.status}, payload {res.payload and res.payload.get('exc')}")
+        ret = res.payload["ret"]
+        counts["retry_after_handled_error"] = counts.get("retry_after_handled_error", 0) + 1
+        if ret.get("first") is not None and ret.get("retry") is None:
+            counts["retry_returned_normally"] = counts.get("retry_returned_normally", 0) + 1
+            view = examine(root)
+            why = None
+            pn_new = "p1" if op in ("move", "clone") else "p0"
+            target = info["new_id"] or info["old_id"]
+            if op == "remove":
+                if info["old_id"] in view["p0"]["dirs"]:
+                    why = "the job directory still exists"
+            elif op in ("clear", "reset"):
+                left = [k for k in view["p0"]["dirs"].get(info["old_id"], (False, {}))[1] if k in case.get("files", {})]
+                if left:
+                    why = f"data files {left} still exist"
+            else:
+                d = view[pn_new]["dirs"].get(target)
+                P = payload_of(case) if op != "init_fresh" else {}
+                if d is None:
+                    why = f"there is no directory {pn_new}/{target}"
+                elif not d[0]:
+                    why = f"directory {pn_new}/{target} does not validate"
+                elif any(d[1].get(k) != b for k, b in P.items()):
+                    why = f"directory {pn_new}/{target} lacks payload files {sorted(k for k, b in P.items() if d[1].get(k) != b)}"
+            if why:
+                mms.append(Mismatch("H5_retry_silent_noop", f"{where}: {ret['first']} raised; the same call repeated on the same handle returned normally, but {why}"))
+        shutil.rmtree(root, ignore_errors=True)
 
     for k, t in enumerate(trace):
         if ctx.out_of_time():
@@ -378,6 +446,8 @@ def constructed():
         for dest in (["fresh", "collide"] if op in ("rekey_set", "rekey_assign", "update_statepoint", "move", "clone") else ["fresh"]):
             out.append(dict(base, op=op, dest=dest))
     out.append(dict(base, op="rekey_set", dest="same"))
+    out.append(dict(base, op="rekey_set", dest="fresh", cache=True))
+    out.append(dict(base, op="move", dest="fresh", cache=True))
     out.append(dict(base, op="rekey_assign", dest="fresh", threads=False))
     out.append(dict(base, op="init_force", dest="fresh", threads=False))
     return out
